@@ -320,9 +320,29 @@ func scalarModelled(e sx.Sexp, d dir) bool {
 	return true
 }
 
+// a directive with a float letter anywhere in the map (an Integer under it needs fmt's digits)
+func hasFloatLetter(m []entry) bool {
+	for _, e := range m {
+		if e.n.d.ok && strings.IndexByte("eEfgG", e.n.d.letter) >= 0 {
+			return true
+		}
+		if e.n.hasCf && hasFloatLetter(e.n.cf) {
+			return true
+		}
+	}
+	return false
+}
+
 func modelled(e sx.Sexp, m []entry, entryMode bool) bool {
-	if e.Tag() == "j" {
-		return true // the pool of expanded object types holds no floats and no invalid text
+	if e.Tag() == "j" || (e.Tag() == "q" && e.Args()[1].MustStr() == "") {
+		// an expanded / anonymous object type formats the values of its init hash (integers among them) under the same map and
+		// its container formats: no float letter anywhere (the pools hold no floats and no invalid text)
+		if hasFloatLetter(m) {
+			return false
+		}
+		if e.Tag() == "j" {
+			return true
+		}
 	}
 	if !entryMode && e.Tag() == "o" && e.Args()[0].MustStr() == "" {
 		// an instance of an anonymous object type is written as the Hash of its init hash
